@@ -216,3 +216,16 @@ claim('C11', 'model_checking',
       _TB + '; finite control is enumerated completely by the decision tree; the solver decides value/time equalities.',
       'decision-tree model checking of the real classes against a reference automaton + SMT equality of values/times',
       'DESIGN.md 3/C11')
+
+claim('C14', 'model_checking',
+      'NRT process, harness-defined instruments with and without gate. (A) pitch, amplitude and duration key chains: '
+      'for every combination of explicitly given keys (degree/note/midinote/freq x transpositions x harmonic/detune; '
+      'amp/db/velocity; dur/stretch/legato/delta/sustain) with SYMBOLIC values (degree and mtranspose symbolic ints), '
+      'event(key) equals the documented formula (z3; exp2/exp10 uninterpreted with inverse axioms). (B) a note event '
+      'played inside a routine: exactly one /s_new at logical time + latency with instrument, fresh node id, add action, '
+      'group and the event\'s value for each instrument control the event defines; one gate-off later by sustain iff the '
+      'instrument has a gate; nothing for a rest. (C) Pbind player: event k at start + sum of deltas; Ppar of three '
+      'children keeps each child\'s timeline; Pdur ends at the requested total -- all over symbolic durations.',
+      _TB + '; by design (source comment) ctranspose modifies midinote/note, not the degree path.',
+      'symbolic execution of the real event classes / players in NRT + SMT validity of key chains and score timelines',
+      'DESIGN.md 3/C14')
